@@ -41,7 +41,7 @@ REASONS = [
  (r"FXRates::try_new$", r"ext:index", "G", "fx_rates[0] behind `fx_rates.is_empty() -> Err` (C09 R09.1)", 1),
  (r"FXRates::update$", r"ext:index", "G", "slot index found by position() behind the contains-all guard (C10 R10.4, R10.6); currencies[0] of a non-empty market", 1),
  (r"create_fx_array$", r"ext:index", "L", "vars[i] with i from enumerate over fx_rates, vars has one entry per quote"),
- (r"create_initial_edges$|create_initial_fx_array$", r"panic:Option::unwrap|ext:arraytraits|assert:BoundsCheck", "I", "currencies is built from the same quote list (try_new) so get_index_of hits; indices < n"),
+ (r"create_initial_edges$|create_initial_fx_array$", r"panic:Option::unwrap|ext:arraytraits|ext:index", "I", "currencies is built from the same quote list (try_new) so get_index_of hits; indices < n"),
  (r"create_initial_fx_array$", r"panic:assert_eq!", "I", "fx_pairs and fx_rates both mapped from the same quote list"),
  (r"mut_arrays_remaining_elements(::\{closure#\d\})?$", r"assert:Overflow\(Mul\)", "S", "n*n on usize"),
  (r"mut_arrays_remaining_elements(::\{closure#\d\})?$", r"assert:Overflow\(Add\)", "R", "i16 counter bounded by the number of currency pairs; statement range 2..12 currencies"),
